@@ -166,6 +166,22 @@ FREE = [
 ]
 
 
+FREE.append(dict(src="package a\n\nfunc run() (err error) {\n\twork(1)\n}\n\nfunc other() (n int, err error) {\n\twork(2)\n}\n",
+                 changes=["@ c1 @\nvar fn identifier\n@@\n-func fn() (err error, ...) {\n+func fn() (...) {\n   ...\n }\n",
+                          "@ c2 @\n@@\n-func run() {\n+func Run() {\n   ...\n }\n"]))
+FREE.append(dict(src="package a\n\nfunc run(ctx Ctx) {\n\twork(1)\n}\n\nfunc keepme(ctx Ctx, n int) {\n\twork(2)\n}\n",
+                 changes=["@ c1 @\nvar fn identifier\n@@\n-func fn(ctx Ctx, ...) {\n+func fn(...) {\n   ...\n }\n",
+                          "@ c2 @\n@@\n-func run() {\n+func Run() {\n   ...\n }\n"]))
+FREE.append(dict(src="package a\n\nfunc f() {\n\t_ = []string{drop}\n\t_ = []string{drop, \"b\"}\n\tg(ctx)\n\tg(ctx, 1)\n}\n",
+                 changes=["@ c1 @\n@@\n-[]string{drop, ...}\n+[]string{...}\n", "@ c2 @\n@@\n-[]string{}\n+empty()\n",
+                          "@ c3 @\n@@\n-g(ctx, ...)\n+g(...)\n", "@ c4 @\n@@\n-g()\n+h()\n"]))
+
+
+FREE.append(dict(src="package a\n\nimport \"net/url\"\n\nfunc f() {\n\t_ = url.Parse\n\tg()\n}\n",
+                 changes=["@ c1 @\n@@\n-g()\n+url := mk()\n+url.Host()\n",
+                          "@ c2 @\n@@\n-import \"net/url\"\n\n-url.Parse\n+parse\n"]))
+
+
 def scenario(sid, files, args, stdin="", meta=None):
     return dict(id=sid, files=files, dirs=[], symlinks=[], args=args, stdin=stdin, cwd="", strace=False, meta=meta or {}, timeout_ms=20000)
 
@@ -272,12 +288,13 @@ def execute(ctx, scs):
     obsreq = []
     for m in metas:
         sid = m["id"]
-        obsreq.append(dict(id=sid + "|in", op="histobs2", src=m["src"]))
+        hop = "histobs2d" if m["sc"].get("free") else "histobs2"
+        obsreq.append(dict(id=sid + "|in", op=hop, src=m["src"]))
         for route in ("one", "each", "list", "stdin", "mixed", "same"):
-            obsreq.append(dict(id="%s|%s" % (sid, route), op="histobs2", src=recs["%s|%s" % (sid, route)]["content"].get(TARGET, "")))
+            obsreq.append(dict(id="%s|%s" % (sid, route), op=hop, src=recs["%s|%s" % (sid, route)]["content"].get(TARGET, "")))
         a = apires[sid + "|api"]
-        obsreq.append(dict(id=sid + "|api", op="histobs2", src=a["out"] if not a["err"] else m["src"]))
-        obsreq.append(dict(id=sid + "|chain", op="histobs2", src=cur[sid]))
+        obsreq.append(dict(id=sid + "|api", op=hop, src=a["out"] if not a["err"] else m["src"]))
+        obsreq.append(dict(id=sid + "|chain", op=hop, src=cur[sid]))
     inp, outp = ctx.path("c09", "obs.in.ndjson"), ctx.path("c09", "obs.out.ndjson")
     write_ndjson(inp, obsreq)
     ctx.run_vh(["api", "-in", inp, "-out", outp], timeout=3000)
@@ -358,6 +375,20 @@ def execute(ctx, scs):
     return [(bym[ln["id"].split("|")[0]], ln, v) for ln, v in zip(lines, verd)]
 
 
+def _known_inputs():
+    import os
+    out = {}
+    for line in open(os.path.join(os.path.dirname(os.path.dirname(os.path.abspath(__file__))), "known_findings.jsonl")):
+        if line.strip():
+            e = json.loads(line)
+            if e.get("status") == "known" and e.get("property") == "C09" and "changes" in e.get("example", {}):
+                out[e["key"]] = (e["example"]["src"], tuple(e["example"]["changes"]))
+    return out
+
+
+KNOWN_INPUT = _known_inputs()
+
+
 def judge(ctx, results, known):
     st = dict(cases=0, routes=0, drift=0)
     for m, ln, v in results:
@@ -365,6 +396,12 @@ def judge(ctx, results, known):
         st["routes"] += len(ln["routes"])
         if v["ieq"] != "1":
             st["drift"] += 1
+        if v["viol"] and m["sc"].get("free"):
+            # recorded defects of the unchanged tree, identified by their exact input (known_findings.jsonl)
+            kf = next((k for k in known if KNOWN_INPUT.get(k) == (m["src"], tuple(m["changes"]))), None)
+            if kf:
+                ctx.known(kf, known[kf], ln["id"])
+                continue
         if v["viol"]:
             ctx.violation("%s: %s rules=%s" % (ln["id"], ",".join(v["viol"]), [(r["t"], r.get("from"), r.get("to"), r.get("guard"), r.get("newpkg")) for r in m["sc"]["rules"]] if not m["sc"].get("free") else "hand-written sequence"),
                           dict(kind="history", id=ln["id"], violated=v["viol"], scenario=m["sc"], src=m["src"], changes=m["changes"],
